@@ -47,7 +47,11 @@ static DONORS: &[&[u8]] = &[
 ];
 
 fn random_op(rng: &mut common::Rng) -> tlv::Op {
-    tlv::Op { kind: rng.below(tlv::N_KINDS as u32) as u8, sel: rng.next() as u16, a: rng.param(), b: rng.param() }
+    let kind = rng.below(tlv::N_KINDS as u32) as u8;
+    if tlv::wide_params(kind) && rng.below(8) != 0 {
+        return tlv::Op { kind, sel: rng.next() as u16, a: rng.below(4096), b: rng.below(4096) };
+    }
+    tlv::Op { kind, sel: rng.next() as u16, a: rng.param(), b: rng.param() }
 }
 
 fn mutate_object(entry: u8, obj: &mut Vec<u8>, rng: &mut common::Rng, max: usize) {
